@@ -324,6 +324,9 @@ func findResultKeys(r resultList) ([]key, error) {
 		case resultSingle:
 			keys = append(keys, key{t: innerResult.Type, name: innerResult.Name})
 		case resultGrouped:
+			if innerResult.Flatten {
+				return nil, newErrInvalidInput("cannot use flatten in a decorator's result: a value group decorator returns the entire value group", nil)
+			}
 			if innerResult.Type.Kind() != reflect.Slice {
 				return nil, newErrInvalidInput("decorating a value group requires decorating the entire value group, not a single value", nil)
 			}
